@@ -15,6 +15,9 @@ table (including `String::from_utf8_lossy`), the comment section, and `TVBitVec:
 
 What the model makes explicit (and `Properties.lean` proves unreachable or characterises):
 
+* the model is parametric in a `Cfg` (one flag per repair of `/repo` the model follows; `Cfg.fixed` =
+  the code as it is, which is what the driver runs; `Cfg.beforeFix` keeps the overflow of
+  `justice_len.iter().sum()` that commit a6ab3b1 removed).
 * every place where the Rust code can **panic** returns `Diag.panic k`: slice/`Vec` indexing
   (`aig.map[var]`, `symbol_list[i]`, `and_gate_spans[..]`; `PanicKind.index`), `unwrap`
   (`last_mut().unwrap()`, `gates.get(index).unwrap()`; `.unwrap`), `usize` arithmetic in builds with
@@ -687,13 +690,35 @@ structure Sections (α : Type) where
   justice : List (List α)
   fairness : List α
 
-def sections {α : Type} (lit : P α) (h : Header) : P (Sections α) := fun inp => do
+/-- which repairs of `/repo` the model follows (`Cfg.fixed`: all — the code as it is) -/
+structure Cfg where
+  /-- commit a6ab3b1: the reservation hint for the justice literals is
+  `justice_len.iter().fold(0, saturating_add).min(input.len())` instead of
+  `justice_len.iter().sum()` (which overflowed) -/
+  justiceSum : Bool
+  deriving DecidableEq, Repr
+
+/-- the code as it is in `/repo` -/
+def Cfg.fixed : Cfg := ⟨true⟩
+/-- the code before commit a6ab3b1 -/
+def Cfg.beforeFix : Cfg := ⟨false⟩
+
+/-- `usize::saturating_add` folded over the justice counts -/
+def satSum (ls : List Nat) : Nat := ls.foldl (fun s n => min (s + n) (2 ^ 64 - 1)) 0
+
+/-- the number of justice literals to reserve memory for. Fixed code: saturating sum, bounded by
+the length of the remaining input (cannot panic). Before the fix: `justice_len.iter().sum()` with
+overflow checks. The value only sizes a reservation, which the model does not represent. -/
+def justiceHint (cfg : Cfg) (justLen : List Nat) (input : Bytes) : Res Nat :=
+  if cfg.justiceSum then .ok (min (satSum justLen) input.length) else sumLeft 0 justLen
+
+def sections {α : Type} (cfg : Cfg) (lit : P α) (h : Header) : P (Sections α) := fun inp => do
   let (outputs, r0) ← collect lit h.out inp
   let (bad, r1) ← collect lit h.bad r0
   let (invariants, r2) ← collect lit h.inv r1
   let (justLen, r3) ← collect usizeLine h.just r2
-  -- `aig.justice.reserve_elements(justice_len.iter().sum())`
-  let _ ← sumLeft 0 justLen
+  -- `aig.justice.reserve_elements(justice_elements)`
+  let _ ← justiceHint cfg justLen r3
   let (justice, r4) ← justiceLits lit justLen r3
   let (fairness, r5) ← collect lit h.fair r4
   pure ({ outputs, bad, invariants, justice, fairness }, r5)
@@ -714,9 +739,10 @@ def finish (h : Header) (firstAnd : Nat) (gates : List (Lit × Lit)) (latches : 
       fairnessNames := symbols.getD 5 [] }
 
 /-- the binary branch -/
-def parseBinary (h : Header) (firstLatch firstAnd : Nat) (inp : Bytes) : Res Problem' := do
+def parseBinary (cfg : Cfg) (h : Header) (firstLatch firstAnd : Nat) (inp : Bytes) :
+    Res Problem' := do
   let ((latches, tv), r0) ← binLatches h.vars firstAnd h.latches firstLatch [] ⟨[], h.latches⟩ inp
-  let (sec, r1) ← sections (binLiteralLine h.vars firstAnd) h r0
+  let (sec, r1) ← sections cfg (binLiteralLine h.vars firstAnd) h r0
   let (gates, r2) ← binAnds firstAnd h.and_ firstAnd [] r1
   finish h firstAnd gates latches tv sec.outputs sec.bad sec.invariants sec.justice sec.fairness [] r2
 
@@ -730,7 +756,8 @@ def cycleCheck (checkAcyclic : Bool) (gates : List (Lit × Lit)) (nspans : Nat) 
   else .ok ()
 
 /-- the ASCII branch -/
-def parseAscii (checkAcyclic : Bool) (h : Header) (firstLatch firstAnd : Nat) (inp : Bytes) :
+def parseAscii (cfg : Cfg) (checkAcyclic : Bool) (h : Header) (firstLatch firstAnd : Nat)
+    (inp : Bytes) :
     Res Problem' := do
   let n ← uadd h.vars 1
   -- `aig.map = vec![UNDEF; vars + 1]; aig.map[0] = Literal::FALSE`
@@ -739,7 +766,7 @@ def parseAscii (checkAcyclic : Bool) (h : Header) (firstLatch firstAnd : Nat) (i
     | _ :: t => pure (Lit.const false :: t)
   let (map1, r0) ← asciiInputs h.vars h.inputs 1 map0 inp
   let (lacc, r1) ← asciiLatches h.vars h.latches firstLatch ⟨map1, [], ⟨[], h.latches⟩⟩ r0
-  let (raw, r2) ← sections (literalLine h.vars) h r1
+  let (raw, r2) ← sections cfg (literalLine h.vars) h r1
   let ((map2, rawGates), r3) ← asciiAnds h.vars h.and_ 0 lacc.map [] r2
   -- map literals
   let (latches, u0) ← mapSlice map2 lacc.next
@@ -753,8 +780,8 @@ def parseAscii (checkAcyclic : Bool) (h : Header) (firstLatch firstAnd : Nat) (i
   let _ ← cycleCheck checkAcyclic gates rawGates.length
   finish h firstAnd gates latches lacc.tv outputs bad invariants justice fairness map2 r3
 
-/-- `oxidd_parser::aiger::parse(&ParseOptions { check_acyclic, .. })` -/
-def parse (checkAcyclic : Bool) (inp : Bytes) : Res Problem' := do
+/-- `oxidd_parser::aiger::parse(&ParseOptions { check_acyclic, .. })`, parametric in `cfg` -/
+def parseCfg (cfg : Cfg) (checkAcyclic : Bool) (inp : Bytes) : Res Problem' := do
   let (h, r0) ← header inp
   -- `VarSet::new(h.inputs.1 + h.latches.1)`, `reserve_gate_inputs(h.and.1 * 2)`
   let _ ← uadd h.inputs h.latches
@@ -762,7 +789,15 @@ def parse (checkAcyclic : Bool) (inp : Bytes) : Res Problem' := do
   let firstLatch ← uadd 1 h.inputs
   let firstAnd ← uadd firstLatch h.latches
   let _ ← uadd firstAnd h.and_
-  if h.binary then parseBinary h firstLatch firstAnd r0
-  else parseAscii checkAcyclic h firstLatch firstAnd r0
+  if h.binary then parseBinary cfg h firstLatch firstAnd r0
+  else parseAscii cfg checkAcyclic h firstLatch firstAnd r0
+
+/-- `oxidd_parser::aiger::parse(&ParseOptions { check_acyclic, .. })` as it is in `/repo` -/
+def parse (checkAcyclic : Bool) (inp : Bytes) : Res Problem' := parseCfg Cfg.fixed checkAcyclic inp
+
+/-- the parser before commit a6ab3b1 (justice sum with overflow checks); kept so that the repaired
+defect stays documented as a theorem (`parse_no_panic_fails`) -/
+def parseBeforeFix (checkAcyclic : Bool) (inp : Bytes) : Res Problem' :=
+  parseCfg Cfg.beforeFix checkAcyclic inp
 
 end OxiddModel.AigerParse
